@@ -371,6 +371,52 @@ func c12Discovery(kind, prefix string) (clause, detail string) {
 	return "", ""
 }
 
+// c12TwoUsers: ONE handler instance serves two authenticated users in turn (u, v, u again); each one's
+// discovery (well-known redirect, current-user-principal, home set) returns that user's own backend paths.
+func c12TwoUsers(kind, prefix string) (clause, detail string) {
+	defer func() {
+		if p := recover(); p != nil {
+			clause, detail = "panic", fmt.Sprint(p)
+		}
+	}()
+	l := c12LayoutFor(prefix)
+	h, _ := c12Handler(kind, prefix, l)
+	p := strings.TrimSuffix(prefix, "/")
+	other := harness.UserPaths{Principal: p + "/v/", HomeSet: p + "/v/c/"}
+	switch hh := h.(type) {
+	case *caldav.Handler:
+		hh.Backend.(*harness.CalBackend).Users = map[string]harness.UserPaths{"v": other}
+	case *carddav.Handler:
+		hh.Backend.(*harness.CardBackend).Users = map[string]harness.UserPaths{"v": other}
+	}
+	w := &harness.Wire{Handler: harness.UserFromHeader(h)}
+	ctx := context.Background()
+	for step, user := range []string{"u", "v", "u", "v"} {
+		wantP, wantH := l.Principal, l.HomeSet
+		if user == "v" {
+			wantP, wantH = other.Principal, other.HomeSet
+		}
+		hc := &harness.HeaderClient{Inner: w.Client(), Key: "X-User", Value: user}
+		var pr, hs string
+		var err error
+		if kind == "caldav" {
+			cl, _ := caldav.NewClient(hc, "http://h/.well-known/caldav")
+			if pr, err = cl.FindCurrentUserPrincipal(ctx); err == nil {
+				hs, err = cl.FindCalendarHomeSet(ctx, pr)
+			}
+		} else {
+			cl, _ := carddav.NewClient(hc, "http://h/.well-known/carddav")
+			if pr, err = cl.FindCurrentUserPrincipal(ctx); err == nil {
+				hs, err = cl.FindAddressBookHomeSet(ctx, pr)
+			}
+		}
+		if err != nil || pr != wantP || hs != wantH {
+			return "discovery-second-user", fmt.Sprintf("step %d user %s: principal %q home set %q (%v), want %q %q", step, user, pr, hs, err, wantP, wantH)
+		}
+	}
+	return "", ""
+}
+
 func c12PrefixClass(p string) string {
 	n := strings.Count(strings.Trim(p, "/"), "/")
 	if strings.Trim(p, "/") != "" {
@@ -482,6 +528,7 @@ func init() {
 					}
 				}
 				exs = append(exs, ex{kind, pf, "", "discovery"})
+				exs = append(exs, ex{kind, pf, "", "two-users"})
 			}
 		}
 		r.Parallel(len(exs), func(i int, s *engine.Shard) {
@@ -493,6 +540,12 @@ func init() {
 				}
 				clause, detail = c12Discovery(e.kind, e.pf)
 				s.Clause("discovery chain returns exactly the backend's paths")
+			} else if e.depth == "two-users" {
+				for k := 0; k < 12; k++ {
+					s.Transition()
+				}
+				clause, detail = c12TwoUsers(e.kind, e.pf)
+				s.Clause("one handler, two authenticated users in turn: each discovers their own paths")
 			} else {
 				s.Transition()
 				clause, detail = c12Foreign(e.kind, e.pf, e.target, e.depth)
@@ -502,7 +555,7 @@ func init() {
 			s.Nontrivial(fmt.Sprintf("X/%d", i))
 			if clause != "" {
 				s.Violate(engine.Violation{Sig: fmt.Sprintf("C12/%s/%s/%s", clause, e.kind, c12PrefixClass(e.pf)), Clause: clause, Index: base + int64(i), Kind: "C12-extra",
-					Case:     c12Extra{Part: map[bool]string{true: "discovery", false: "foreign"}[e.depth == "discovery"], Kind: e.kind, Prefix: e.pf, Target: e.target, Depth: e.depth},
+					Case:     c12Extra{Part: map[string]string{"discovery": "discovery", "two-users": "two-users"}[e.depth], Kind: e.kind, Prefix: e.pf, Target: e.target, Depth: e.depth},
 					Expected: "the backend's paths / nothing of the current user's", Observed: detail})
 			}
 		})
@@ -523,6 +576,8 @@ func init() {
 		var clause, detail string
 		if c.Part == "discovery" {
 			clause, detail = c12Discovery(c.Kind, c.Prefix)
+		} else if c.Part == "two-users" {
+			clause, detail = c12TwoUsers(c.Kind, c.Prefix)
 		} else {
 			clause, detail = c12Foreign(c.Kind, c.Prefix, c.Target, c.Depth)
 		}
